@@ -498,7 +498,8 @@ def create_npu_activation(op: Operation, ofm_zero_point_0: bool = True) -> NpuAc
     act.max = op.activation.max
     if (
         act_op is NpuActivationOp.NONE_OR_RELU
-        and op.type.is_avgpool_op()
+        # average pool, or an operator that replaces one and computes with the zero point left in its values
+        and (op.type.is_avgpool_op() or op.rounding_mode == RoundingMode.AwayZero)
         and not op.explicit_scaling
         and ofm_zero_point_0
     ):
